@@ -49,7 +49,8 @@ Theorem c12_no_redundant_write : forall e st levels,
 Proof. exact main_no_redundant_write. Qed.
 Print Assumptions c12_no_redundant_write.
 
-(* every written content is acceptable for its file (files other than cpu.max on v2) *)
+(* about the model only (not a clause of the property's text, not checked by prop_code): every
+   written content is acceptable for its file (files other than cpu.max on v2) *)
 Theorem c12_legal_writes : forall e st levels,
   hyps_ok e (sfs st) levels = true -> coherent (scache st) (sfs st) ->
   (forall u, In u (concat levels) -> on_q e (ukey u) = false) ->
@@ -79,7 +80,7 @@ Proof. exact main_history_holds. Qed.
 Print Assumptions c12_history_holds.
 
 (* all histories, including cpu.max on v2 and the BE cpuset calls: crash points, final state and
-   frame never fail (the code is 0, 3 or 5) *)
+   frame never fail (the code is 0 or 3) *)
 Theorem c12_history_hard : forall e fs ops,
   validb e fs = true -> hist_hyps e (mkSt fs []) ops ->
   soft (hist_code e fs ops (run_hist e (mkSt fs []) ops)) = true.
@@ -113,7 +114,8 @@ Theorem c12_cpuset_containment : forall a b,
 Proof. exact subset_spec. Qed.
 Print Assumptions c12_cpuset_containment.
 
-(* ---- false of the faithful model (findings; shapes 2, 1, 3 of Codec.known_shape) ---- *)
+(* ---- false of the faithful model: shapes 2 and 3 of Codec.known_shape are findings
+   (no_redundant_write); legal_writes_cfs_v2 is a documented observation only ---- *)
 Theorem c12_no_redundant_write_cfs_v2_refuted :
   exists e st levels, hyps_ok e (sfs st) levels = true /\ coherent (scache st) (sfs st)
     /\ ~ no_redundant e (sfs st) (concat levels) (snd (leveled_update e st levels)).
